@@ -10,6 +10,7 @@
 // The crate's own `Slot::invariants()` and every `unsafe { assume!(..) }` guard panic in the dev profile and are
 // therefore additional obligations of every harness (reported under <harness>/safety).
 use super::*;
+use crate::buffer::reader::Storage as _;
 use crate::buffer::reassembler::request::Request;
 #[allow(dead_code, unused_variables)]
 mod spec {
@@ -26,11 +27,15 @@ const DLEN: usize = 4;
 /// Arbitrary well-formed slot: any start offset, any fill level 0..=CAP, any contents.
 /// (Representation invariant = `Slot::invariants()`: capacity == end - start, len == end() - start.)
 fn any_slot() -> Slot {
+    any_slot_filled(kani::any())
+}
+
+/// same with the fill level given by the caller (concrete fill levels keep the `BytesMut` shape concrete)
+fn any_slot_filled(k0: usize) -> Slot {
     let start: u64 = kani::any();
     kani::assume(start <= MAXV);
     let mut slot = Slot::new(start, start + CAP as u64, BytesMut::with_capacity(CAP));
     let bytes: [u8; CAP] = kani::any();
-    let k0: usize = kani::any();
     // filled bytes are stream bytes (offset <= 2^62-1: `Request::new` rejects anything else)
     kani::assume(k0 <= CAP && start + k0 as u64 <= MAXV);
     slot.data.extend_from_slice(&bytes[..k0]);
@@ -59,26 +64,42 @@ fn well_formed(s: &Slot) -> bool {
 
 // ---- try_write_reader (write_reader_append / write_reader_split) ---------------------------------------------------
 
-//@ harness props=C16,C01 tier=quick level=bounded bound="slot buffer 8 bytes, request <= 4 bytes; all offsets and bytes symbolic" timeout=900 mem=12
+//@ harness props=C16,C01 tier=quick level=bounded bound="slot buffer 8 bytes with 0 bytes filled, request <= 4 bytes; all offsets and bytes symbolic" timeout=900 mem=12
 //@ fn Slot::try_write_reader
 //@ fn Slot::write_reader_append
 //@ fn Slot::write_reader_split
 #[kani::proof]
 #[kani::unwind(10)]
-fn vq_c16_slot_try_write_reader() {
-    let mut slot = any_slot();
+fn vq_c16_slot_try_write_reader_fill0() {
+    try_write_step(0);
+}
+
+/// one `try_write_reader` call on a slot with `k0` of its 8 bytes filled (shape concrete, everything else symbolic)
+fn try_write_step(k0: usize) {
+    let mut slot = any_slot_filled(k0);
     let old = view(&slot);
-    let w: u64 = kani::any(); // witness stream offset
+    // witness stream offset: inside or just behind the allocation (slot_inv keeps every byte of the slot and of the
+    // split-off slot inside [start, end_alloc); offsets further away are never part of either view)
+    let dw: u8 = kani::any();
+    kani::assume(dw as usize <= CAP + 1);
+    let w: u64 = slot.start + dw as u64;
     let old_w = byte_at(&slot, w);
 
     let data: [u8; DLEN] = kani::any();
     let len: usize = kani::any();
-    let off: u64 = kani::any();
     let fin: bool = kani::any();
+    // request offset: `near` = at most 2 bytes behind the allocation (every branch of the function), or anywhere
+    // further up to 2^62-1 (`far`: the request does not touch this slot)
+    let far: bool = kani::any();
+    let d: u8 = kani::any();
+    let far_off: u64 = kani::any();
+    kani::assume(d as usize <= CAP + 2);
+    let off: u64 = if far { far_off } else { slot.start + d as u64 };
     // requires: start <= reader offset (debug_assert of the function; call sites: the slot search in
     // Reassembler::write_reader_impl, allocate_slot's alignment, the yield test in write_reader_with_alloc);
     // off + len <= 2^62-1 is the invariant of `Request::new`
     kani::assume(len <= DLEN && off >= slot.start && off <= MAXV - len as u64);
+    kani::assume(!far || off > slot.start + (CAP + 2) as u64);
     let mut req = Request::new(VarInt::new(off).unwrap(), &data[..len], fin).unwrap();
     let r = ReqV { off: off as i128, len: len as i128 };
     assert!(slot_write_pre(old, r), "C16/slot.try_write_reader/builder_establishes_pre");
@@ -138,36 +159,75 @@ fn vq_c16_slot_try_write_reader() {
         assert!(rest[j] == data[(rnew.off - r.off) as usize + j], "C16/slot.try_write_reader/reader_rest_bytes");
     }
 
-    kani::cover!(filled.is_none() && n > 0 && t.off == r.off, "reach:append");
-    kani::cover!(filled.is_none() && n > 0 && t.off > r.off, "reach:append_after_trimming_overlap");
-    kani::cover!(filled.is_some() && n == len as i128, "reach:split_whole_request");
-    kani::cover!(filled.is_some() && rnew.len > 0, "reach:split_truncated_at_end_of_allocation");
-    kani::cover!(filled.is_none() && n > 0 && rnew.len > 0, "reach:append_truncated_at_end_of_allocation");
-    kani::cover!(slot_is_full(old) && rnew.len > 0, "reach:already_full");
-    kani::cover!(n == 0 && !slot_is_full(old) && t.len > 0, "reach:request_beyond_allocation");
-    kani::cover!(n == 0 && t.len == 0 && len > 0, "reach:request_entirely_duplicate");
+    // reachability of every branch; a scenario that cannot occur at this (concrete) fill level counts as covered
+    let partial = k0 < CAP;
+    let some = k0 > 0;
+    let gap_possible = k0 + 2 <= CAP;
+    kani::cover!(!partial || (filled.is_none() && n > 0 && t.off == r.off), "reach:append");
+    kani::cover!(!(partial && some) || (filled.is_none() && n > 0 && t.off > r.off), "reach:append_after_trimming_overlap");
+    kani::cover!(!gap_possible || (filled.is_some() && n == len as i128), "reach:split_whole_request");
+    kani::cover!(!gap_possible || (filled.is_some() && rnew.len > 0), "reach:split_truncated_at_end_of_allocation");
+    kani::cover!(
+        !(partial && CAP - k0 < DLEN) || (filled.is_none() && n > 0 && rnew.len > 0),
+        "reach:append_truncated_at_end_of_allocation"
+    );
+    kani::cover!(partial || (slot_is_full(old) && rnew.len > 0), "reach:already_full");
+    kani::cover!(!partial || (n == 0 && t.len > 0), "reach:request_beyond_allocation");
+    kani::cover!(!some || (n == 0 && t.len == 0 && len > 0), "reach:request_entirely_duplicate");
     kani::cover!(len == 0, "reach:empty_request");
-    kani::cover!(flag && !flag_old, "reach:flag_raised");
-    kani::cover!(old_w.is_some() && n > 0, "reach:witness_in_old_bytes");
-    kani::cover!(old_w.is_none() && new_w.is_some(), "reach:witness_in_new_bytes");
-    kani::cover!(old.start as u64 == MAXV, "reach:slot_at_max_offset");
+    kani::cover!(!partial || (flag && !flag_old), "reach:flag_raised");
+    kani::cover!(!(partial && some) || (old_w.is_some() && n > 0), "reach:witness_in_old_bytes");
+    kani::cover!(!partial || (old_w.is_none() && new_w.is_some()), "reach:witness_in_new_bytes");
+    kani::cover!(slot_end(old) == MAXV as i128, "reach:filled_up_to_max_offset");
+    kani::cover!(!partial || old.end_alloc > MAXV as i128, "reach:allocation_reaches_beyond_max_offset");
+    kani::cover!(far && n == 0 && rnew.len == len as i128, "reach:far_request_untouched");
+}
+
+//@ harness props=C16,C01 tier=quick level=bounded bound="slot buffer 8 bytes with 3 bytes filled, request <= 4 bytes; all offsets and bytes symbolic" timeout=900 mem=12
+//@ fn Slot::try_write_reader
+//@ fn Slot::write_reader_append
+//@ fn Slot::write_reader_split
+#[kani::proof]
+#[kani::unwind(10)]
+fn vq_c16_slot_try_write_reader_fill3() {
+    try_write_step(3);
+}
+
+//@ harness props=C16,C01 tier=quick level=bounded bound="slot buffer 8 bytes with 6 bytes filled, request <= 4 bytes; all offsets and bytes symbolic" timeout=900 mem=12
+//@ fn Slot::try_write_reader
+//@ fn Slot::write_reader_append
+//@ fn Slot::write_reader_split
+#[kani::proof]
+#[kani::unwind(10)]
+fn vq_c16_slot_try_write_reader_fill6() {
+    try_write_step(6);
+}
+
+//@ harness props=C16,C01 tier=quick level=bounded bound="full slot (8 of 8 bytes), request <= 4 bytes; all offsets and bytes symbolic" timeout=900 mem=12
+//@ fn Slot::try_write_reader
+#[kani::proof]
+#[kani::unwind(10)]
+fn vq_c16_slot_try_write_reader_full() {
+    try_write_step(8);
 }
 
 // ---- unsplit -------------------------------------------------------------------------------------------------------
 
-//@ harness props=C16,C01 tier=quick level=bounded bound="two adjacent slots carved from one 8-byte buffer; split point, fill level, offsets, bytes symbolic" timeout=600 mem=12
+//@ harness props=C16,C01 tier=quick level=bounded bound="two adjacent slots carved from one 8-byte buffer at split point 3, second one filled to the end; offsets, bytes symbolic" timeout=600 mem=12
 //@ fn Slot::unsplit
 #[kani::proof]
 #[kani::unwind(10)]
-fn vq_c16_slot_unsplit() {
-    // builder: a full slot `a` = [start, start+m) and its right neighbour `b` = [start+m, start+CAP) with kb >= 1
-    // bytes filled, carved from one allocation exactly the way write_reader_split does (BytesMut::split_off)
+fn vq_c16_slot_unsplit_full() {
+    unsplit_step(3, 5);
+}
+
+/// builder: a full slot `a` = [start, start+m) and its right neighbour `b` = [start+m, start+CAP) with kb >= 1 bytes
+/// filled, carved from one allocation exactly the way write_reader_split does (BytesMut::split_off).
+/// The shape (m, kb) is concrete per harness (symbolic sizes make BytesMut::unsplit's copy fallback explode: 15 GB).
+fn unsplit_step(m: usize, kb: usize) {
     let start: u64 = kani::any();
-    kani::assume(start <= MAXV);
+    kani::assume(start <= MAXV && start + (m + kb) as u64 <= MAXV);
     let bytes: [u8; CAP] = kani::any();
-    let m: usize = kani::any();
-    let kb: usize = kani::any();
-    kani::assume(m >= 1 && m < CAP && kb >= 1 && m + kb <= CAP && start + (m + kb) as u64 <= MAXV);
     let mut whole = BytesMut::with_capacity(CAP);
     whole.extend_from_slice(&bytes[..m + kb]);
     let tail = whole.split_off(m);
@@ -187,10 +247,17 @@ fn vq_c16_slot_unsplit() {
     assert!(slot_unsplit_post(va, vb, view(&a)), "C16/slot.unsplit/view_is_concatenation");
     assert!(well_formed(&a), "C16/slot.unsplit/inv_preserved");
     assert!(byte_at(&a, w) == old_w, "C16/slot.unsplit/content_is_concatenation");
-    kani::cover!(m + kb == CAP, "reach:merged_slot_full");
-    kani::cover!(m + kb < CAP, "reach:merged_slot_partial");
     kani::cover!(old_w.is_some() && w >= start + m as u64, "reach:witness_in_second_half");
     kani::cover!(old_w.is_some() && w < start + m as u64, "reach:witness_in_first_half");
+    kani::cover!(m + kb == CAP || start + CAP as u64 > MAXV, "reach:allocation_reaches_beyond_max_offset");
+}
+
+//@ harness props=C16,C01 tier=quick level=bounded bound="two adjacent slots carved from one 8-byte buffer at split point 5, second one partially filled (2 of 3); offsets, bytes symbolic" timeout=600 mem=12
+//@ fn Slot::unsplit
+#[kani::proof]
+#[kani::unwind(10)]
+fn vq_c16_slot_unsplit_partial() {
+    unsplit_step(5, 2);
 }
 
 // ---- skip / skip_until -----------------------------------------------------------------------------------------------
